@@ -23,14 +23,14 @@ var c01Kinds = []c01Kind{
 	{T: decl.TBool},
 	{T: decl.TBools},
 	{T: decl.TString, Vals: []string{"a=b", `"q\tz"`}},
-	{T: decl.TInt, Vals: []string{"5", "-7"}},
-	{T: decl.TUint8, Vals: []string{"200", "7"}},
+	{T: decl.TInt, Vals: []string{"5", "-7", "010"}},
+	{T: decl.TUint8, Vals: []string{"200", "007"}},
 	{T: decl.TFloat64, Vals: []string{"2.5", "-1e3"}},
 	{T: decl.TDuration, Vals: []string{"1h2m", "-3s"}},
 	{T: decl.TPString, Vals: []string{"val", "x=y"}},
 	{T: decl.TPInt, Vals: []string{"5", "-7"}},
 	{T: decl.TStrings, Vals: []string{"a", "b=c"}},
-	{T: decl.TInts, Vals: []string{"1", "-2"}},
+	{T: decl.TInts, Vals: []string{"1", "-2", "0644"}},
 	{T: decl.TMapSS, Vals: []string{"k:v", "k:w:z", "j:1"}},
 	{T: decl.TMapSI, Vals: []string{"k:1", "k:2", "j:-3"}},
 	{T: decl.TFunc0},
@@ -53,6 +53,8 @@ const (
 	c01PlDeep
 	c01PlCmdShadow
 	c01PlDeepShadow
+	c01PlNsShadow  // the same namespaced long name on the parser and on the command (innermost wins)
+	c01PlPlainInNs // a group without namespace nested in a namespaced group
 	c01Placements
 )
 
@@ -108,6 +110,15 @@ func c01Build(kind c01Kind, placement int, delim string, short string, hf bool) 
 	case c01PlDeepShadow:
 		add.Opts = []*decl.Opt{shadow()}
 		deep.Opts = []*decl.Opt{str, u}
+	case c01PlNsShadow:
+		top.Groups = []*decl.Group{{Field: "TG", Name: "Top Group", Namespace: "db", Opts: []*decl.Opt{shadow()}}}
+		add.Groups = []*decl.Group{{Field: "AG", Name: "Add Group", Namespace: "db", Opts: []*decl.Opt{u}}}
+		add.Opts = []*decl.Opt{str}
+		longNS = "db" + delim + "name"
+	case c01PlPlainInNs:
+		top.Groups = []*decl.Group{{Field: "Outer", Name: "Outer Group", Namespace: "outer",
+			Groups: []*decl.Group{{Field: "Inner", Name: "Inner Group", Opts: []*decl.Opt{str, u}}}}}
+		longNS = "outer" + delim + "name"
 	}
 	d := &decl.Decl{Top: top, Sentinels: true}
 	if delim != "." {
@@ -153,7 +164,7 @@ func init() {
 	for k := range c01Kinds {
 		for p := 0; p < c01Placements; p++ {
 			cells = append(cells, cell{k, p, "."})
-			if p == c01PlNs || p == c01PlNsNs || p == c01PlCmdNs {
+			if p == c01PlNs || p == c01PlNsNs || p == c01PlCmdNs || p == c01PlNsShadow || p == c01PlPlainInNs {
 				cells = append(cells, cell{k, p, "::"})
 			}
 		}
@@ -232,8 +243,8 @@ func init() {
 		ShardDepth: 2,
 		Body:       body,
 		Rule: "option under test U of 21 kinds (bool, []bool, string, int, uint8, float64, Duration, *string, *int, []string, []int, map[string]string, map[string]int, " +
-			"func(), func(string), func(int) error, Unmarshaler, *Unmarshaler, []Unmarshaler, optional-argument string/int) x 9 placements (parser, subgroup, namespaced, doubly namespaced, command, " +
-			"command's namespaced group, sub-subcommand, shadowing an ancestor's option at two depths) x namespace delimiter {., ::} x short name {u, é} x {struct tags, AddGroup/AddCommand API} " +
+			"func(), func(string), func(int) error, Unmarshaler, *Unmarshaler, []Unmarshaler, optional-argument string/int) x 11 placements (parser, subgroup, namespaced, doubly namespaced, command, " +
+			"command's namespaced group, sub-subcommand, shadowing an ancestor's option at two depths, shadowing through an identical namespaced long name, plain group nested in a namespaced group) x namespace delimiter {., ::} x short name {u, é} x {struct tags, AddGroup/AddCommand API} " +
 			"x {None, HelpFlag|PassDoubleDash}; every sequence of <= 3 (quick) / <= 4 (thorough) units over all spellings of U with 1-3 values, bystander options, command words and a plain word; " +
 			"oracle = command-line reference model (CLM) + conversion model; compared on every successful parse; states = distinct (declaration, CLM state), distinct = distinct (declaration, error class, #occurrences, value of U)",
 		Assumptions:  []string{"multi-valued optional-argument options are kept out (bare occurrence semantics undocumented)", "flags of a cluster that precede an unknown character are not asserted"},
